@@ -520,3 +520,227 @@ Proof.
   destruct (req_step fx s o) as [s' outs] eqn:E. cbn [fst].
   eapply stash_step; eauto. now apply (reach_inv fx).
 Qed.
+
+(* ------------------------------------------------------------------ *)
+(* frame: a context that is on no pipe's list and not on the send queue is not
+   touched by req0_run_send_queue nor by req0_pipe_close, and stays off both *)
+Lemma run_sendq_frame fx k f : forall s s' outs cl, off s k -> run_sendq fx f s = (s', outs, cl) ->
+  off s' k /\ ctx_get s' k = ctx_get s k.
+Proof.
+  induction f as [|f IH]; intros s s' outs cl O H; cbn [run_sendq] in H.
+  { inversion H; subst. auto. }
+  destruct (rq_sendq s) as [|k0 sq] eqn:Esq. { inversion H; subst. auto. }
+  destruct (rq_ready s) as [|p rd] eqn:Erd. { inversion H; subst. auto. }
+  destruct O as [O1 O2].
+  assert (Hne : k0 <> k). { intros ->. apply O1. rewrite Esq. now left. }
+  assert (Oskip : off (set_sendq s sq) k).
+  { split; [|exact O2]. svs. intros Hin. apply O1. rewrite Esq. now right. }
+  assert (Hskip : run_sendq fx f (set_sendq s sq) = (s', outs, cl) -> off s' k /\ ctx_get s' k = ctx_get s k).
+  { intros H'. destruct (IH _ _ _ _ Oskip H') as [A B]. split; [exact A|]. rewrite B. reflexivity. }
+  destruct (ctx_get s k0) as [c|] eqn:Ec; [|auto].
+  destruct (cx_req c) as [m|] eqn:Em; [|auto].
+  clear Hskip. cbv zeta in H.
+  match type of H with context [run_sendq fx f ?X] =>
+    assert (O6 : off X k /\ ctx_get X k = ctx_get s k); [|destruct (run_sendq fx f X) as [[s7 o7] c7] eqn:E7] end.
+  2:{ inversion H; subst. destruct O6 as [O6 G6]. destruct (IH _ _ _ _ O6 E7) as [A B]. split; [exact A|congruence]. }
+  destruct (retry_on fx c), (is_nil rd);
+  (split;
+   [split;
+    [svs; intros Hin; apply O1; rewrite Esq; now right
+    |intros p0; svs; intros Hin; apply in_app_or in Hin; destruct Hin as [Hin|[E|[]]];
+     [apply in_plist_del in Hin; exact (O2 p0 (proj1 Hin))|injection E as _ E'; exact (Hne E')]]
+   |unfold ctx_get; svs; apply lookup_assoc_set_other; intros E; apply Hne; now symmetry]).
+Qed.
+
+Lemma pcl_body_frame fx s0 k0 c k s1 o1 cl1 :
+  k0 <> k -> off s0 k -> pcl_body fx s0 k0 c = (s1, o1, cl1) -> off s1 k /\ ctx_get s1 k = ctx_get s0 k.
+Proof.
+  intros Hne [O1 O2] H. assert (Hne' : k <> k0) by (intros E; apply Hne; now symmetry).
+  unfold pcl_body in H. destruct (negb (retry_on fx c)).
+  - destruct (cx_recv c) as [ra|];
+    match type of H with context [ctx_reset fx ?S k0 ?C] => destruct (ctx_reset fx S k0 C) as [[s2 c2] o2] eqn:ER end;
+    inversion H; subst; apply ctx_reset_lists in ER; destruct ER as [F1 [F2 [F3 _]]];
+    (split;
+     [split;
+      [svs; rewrite F2; intros Hin; apply in_remove_id in Hin; exact (O1 (proj1 Hin))
+      |intros p0; svs; rewrite F3; intros Hin; apply in_plist_del in Hin; exact (O2 p0 (proj1 Hin))]
+     |rewrite ctx_get_put_other by exact Hne'; apply ctx_get_ext; exact F1]).
+  - destruct (cx_req c) as [r|] eqn:Er.
+    2:{ inversion H; subst. split; [split; assumption|reflexivity]. }
+    cbv zeta in H.
+    match type of H with context [if ?b then _ else _] => destruct b end.
+    + inversion H; subst. split; [split; [exact O1|exact O2]|]. now apply ctx_get_put_other.
+    + unfold run_send_queue in H.
+      match type of H with run_sendq fx _ ?X = _ => assert (OX : off X k /\ ctx_get X k = ctx_get s0 k) end.
+      { split; [split|].
+        - svs. intros Hin. apply in_app_or in Hin. destruct Hin as [Hin|[E|[]]]; [exact (O1 Hin)|exact (Hne E)].
+        - intros p0. svs. exact (O2 p0).
+        - unfold ctx_get. svs. now apply lookup_assoc_set_other. }
+      destruct OX as [OX GX]. destruct (run_sendq_frame _ _ _ _ _ _ _ OX H) as [A B]. split; [exact A|congruence].
+Qed.
+
+Lemma first_on_in p l k : first_on p l = Some k -> In (p, k) l.
+Proof.
+  induction l as [|[q k'] l IH]; cbn; [discriminate|].
+  destruct (N.eqb_spec q p) as [->|Hne]; intros H; [inversion H; subst; now left|right; auto].
+Qed.
+
+Lemma pcl_frame fx p k : forall f s s' outs cl, off s k -> pipe_close_loop fx f s p = (s', outs, cl) ->
+  off s' k /\ ctx_get s' k = ctx_get s k.
+Proof.
+  induction f as [|f IH]; intros s s' outs cl O H.
+  { cbn in H. inversion H; subst. auto. }
+  rewrite pcl_unfold in H. destruct (first_on p (rq_plist s)) as [k0|] eqn:EF.
+  2:{ inversion H; subst. auto. }
+  cbv zeta in H.
+  assert (Hne : k0 <> k). { intros ->. apply first_on_in in EF. exact (proj2 O p EF). }
+  assert (O0 : off (set_plist s (plist_del k0 (rq_plist s))) k).
+  { split; [exact (proj1 O)|]. intros p0. svs. intros Hin. apply in_plist_del in Hin. exact (proj2 O p0 (proj1 Hin)). }
+  destruct (ctx_get (set_plist s (plist_del k0 (rq_plist s))) k0) as [c|] eqn:P.
+  2:{ destruct (IH _ _ _ _ O0 H) as [A B]. split; [exact A|]. rewrite B. reflexivity. }
+  destruct (pcl_body fx (set_plist s (plist_del k0 (rq_plist s))) k0 c) as [[s1 o1] cl1] eqn:EB.
+  destruct (pipe_close_loop fx f s1 p) as [[s2 o2] cl2] eqn:EL.
+  inversion H; subst.
+  destruct (pcl_body_frame _ _ _ _ _ _ _ _ Hne O0 EB) as [O1 G1].
+  destruct (IH _ _ _ _ O1 EL) as [A B]. split; [exact A|]. rewrite B, G1. reflexivity.
+Qed.
+
+(* req0_pipe_close as a whole *)
+Lemma pipe_close_frame fx s p k s' outs :
+  off s k -> req_step fx s (PPipeClose p) = (s', outs) -> off s' k /\ ctx_get s' k = ctx_get s k.
+Proof.
+  intros [O1 O2] H. unfold req_step in H. rewrite req_pipe_close_unfold in H.
+  destruct (pipe_close_loop fx (length (rq_plist (pc_start s p))) (pc_start s p) p) as [[s1 o1] cl1] eqn:E.
+  inversion H; subst.
+  assert (O : off (pc_start s p) k).
+  { split; [rewrite pc_start_sendq; exact O1|]. intros p0. rewrite pc_start_plist. exact (O2 p0). }
+  destruct (pcl_frame _ _ _ _ _ _ _ _ O E) as [A B]. split; [exact A|]. rewrite B. apply pc_start_ctx.
+Qed.
+
+(* ------------------------------------------------------------------ *)
+(* the theorems                                                          *)
+
+(* in a reachable state a context holding a reply is on no pipe's list and not on
+   the send queue (and holds no request) *)
+Lemma req_stashed_off fx s k c m :
+  fx_stash fx = true -> req_reach fx s -> ctx_get s k = Some c -> cx_rep c = Some m ->
+  cx_req c = None /\ off s k.
+Proof.
+  intros FX R P E. pose proof (reach_stash fx s FX R) as I.
+  assert (RN : cx_req c = None) by (apply (st_rep s I k c P); congruence).
+  split; [exact RN|]. exact (inv_off s k c I P RN).
+Qed.
+
+(* the loss of any connection leaves the whole context as it was *)
+Theorem req_stashed_ctx_untouched_by_pipe_loss : forall fx s k c m p s' outs,
+  fx_stash fx = true -> req_reach fx s -> ctx_get s k = Some c -> cx_rep c = Some m ->
+  req_step fx s (PPipeClose p) = (s', outs) ->
+  ctx_get s' k = Some c.
+Proof.
+  intros fx s k c m p s' outs FX R P E H.
+  destruct (req_stashed_off fx s k c m FX R P E) as [_ O].
+  destruct (pipe_close_frame fx s p k s' outs O H) as [_ G]. now rewrite G.
+Qed.
+
+Theorem req_stashed_reply_survives_pipe_loss : forall fx s k c m p s' outs,
+  fx_stash fx = true -> req_reach fx s -> ctx_get s k = Some c -> cx_rep c = Some m ->
+  req_step fx s (PPipeClose p) = (s', outs) ->
+  exists c', ctx_get s' k = Some c' /\ cx_rep c' = Some m /\ cx_creset c' = cx_creset c /\ cx_recv c' = cx_recv c.
+Proof.
+  intros fx s k c m p s' outs FX R P E H. exists c.
+  split; [eapply req_stashed_ctx_untouched_by_pipe_loss; eauto|]. auto.
+Qed.
+
+(* ... and the next receive on that context delivers the reply *)
+Theorem req_stashed_reply_delivered_after_pipe_loss : forall fx s k c m p s' outs,
+  fx_stash fx = true -> req_reach fx s -> ctx_get s k = Some c -> cx_rep c = Some m -> cx_recv c = None ->
+  req_step fx s (PPipeClose p) = (s', outs) ->
+  forall co a nb, ckey co = k ->
+  exists s'', req_step fx s' (PRecv co a nb) = (s'', [Complete a E_OK (Some m)]).
+Proof.
+  intros fx s k c m p s' outs FX R P E RV H co a nb Hk.
+  pose proof (req_stashed_ctx_untouched_by_pipe_loss fx s k c m p s' outs FX R P E H) as G.
+  unfold req_step, req_stepL. rewrite Hk, G. unfold req_ctx_recv. rewrite RV, E. cbn [orb andb].
+  destruct (cx_req c); cbn [orb andb]; eexists; reflexivity.
+Qed.
+
+(* the same, on the model's req0_ctx_recv directly *)
+Corollary req_stashed_reply_recv_after_pipe_loss : forall fx s k c m p s' outs,
+  fx_stash fx = true -> req_reach fx s -> ctx_get s k = Some c -> cx_rep c = Some m -> cx_recv c = None ->
+  req_step fx s (PPipeClose p) = (s', outs) ->
+  forall a nb, ctx_get s' k = Some c /\ snd (req_ctx_recv s' k c a nb) = [Complete a E_OK (Some m)].
+Proof.
+  intros fx s k c m p s' outs FX R P E RV H a nb.
+  split; [eapply req_stashed_ctx_untouched_by_pipe_loss; eauto|].
+  unfold req_ctx_recv. rewrite RV, E. destruct (cx_req c); reflexivity.
+Qed.
+
+(* ------------------------------------------------------------------ *)
+(* the hypotheses are satisfiable: resending disabled, the reply arrives before
+   the application asks for it and is stashed, then the connection is lost *)
+Lemma reach_run fx : forall ops s, req_reach fx s -> (forall o k, In o ops -> o <> PCtxOpen k) ->
+  req_reach fx (fst (req_run fx s ops)).
+Proof.
+  induction ops as [|o r IH]; intros s R NO; cbn [req_run]; [exact R|].
+  destruct (req_stepL fx s o) as [[s1 o1] cl] eqn:E.
+  assert (R1 : req_reach fx s1).
+  { replace s1 with (fst (req_step fx s o)) by (unfold req_step; rewrite E; reflexivity).
+    apply reach_step; [exact R|]. destruct o; cbn; trivial. exfalso. eapply NO; [now left|reflexivity]. }
+  specialize (IH s1 R1). destruct (req_run fx s1 r) as [s2 tr]. cbn [fst] in *.
+  apply IH. intros o' k Hin. apply NO. now right.
+Qed.
+
+Definition w_stash_pre : list pop := firstn 5 w_stash.   (* up to and including the reply *)
+Definition w_stashed : req := fst (req_run fx_repaired req_init w_stash_pre).
+Definition w_stashed_ctx : rctx :=
+  mkRctx 0 None None None (Some (mkPmsg [] [187%N])) (-1) (-1) 0 false false.
+
+Example req_stashed_hypotheses_w :
+  fx_stash fx_repaired = true /\ req_reach fx_repaired w_stashed /\
+  ctx_get w_stashed 0%N = Some w_stashed_ctx /\
+  cx_rep w_stashed_ctx = Some (mkPmsg [] [187%N]) /\ cx_recv w_stashed_ctx = None /\
+  retry_on fx_repaired w_stashed_ctx = false /\ ckey None = 0%N /\
+  (* ... and what the theorems then say about this history *)
+  (let s' := fst (req_step fx_repaired w_stashed (PPipeClose 1%N)) in
+   ctx_get s' 0%N = Some w_stashed_ctx /\
+   snd (req_step fx_repaired s' (PRecv None 9%N true)) = [Complete 9%N E_OK (Some (mkPmsg [] [187%N]))]).
+Proof.
+  split; [reflexivity|]. split.
+  - apply reach_run; [apply reach_init|]. intros o k Hin. vm_compute in Hin.
+    repeat (destruct Hin as [<-|Hin]; [discriminate|]). contradiction.
+  - vm_compute. repeat split.
+Qed.
+
+(* the general theorems instantiated on it *)
+Example req_stashed_instance_w : forall a nb,
+  exists s'', req_step fx_repaired (fst (req_step fx_repaired w_stashed (PPipeClose 1%N))) (PRecv None a nb)
+              = (s'', [Complete a E_OK (Some (mkPmsg [] [187%N]))]).
+Proof.
+  intros a nb. destruct req_stashed_hypotheses_w as [FX [R [P [E [RV _]]]]].
+  destruct (req_step fx_repaired w_stashed (PPipeClose 1%N)) as [s' outs] eqn:H. cbn [fst].
+  exact (req_stashed_reply_delivered_after_pipe_loss _ _ _ _ _ _ _ _ FX R P E RV H None a nb eq_refl).
+Qed.
+
+(* fx_stash is needed: in the pinned code the same history reaches a state that
+   violates stash_inv (the answered context stays on its pipe's list), and the
+   pipe's loss then throws the reply away (ReqProofs.req_stashed_reply_survives_refuted_w) *)
+Example req_stash_inv_refuted_pinned_w :
+  req_reach fx_pinned (fst (req_run fx_pinned req_init w_stash_pre)) /\
+  ~ stash_inv (fst (req_run fx_pinned req_init w_stash_pre)).
+Proof.
+  split.
+  - apply reach_run; [apply reach_init|]. intros o k Hin. vm_compute in Hin.
+    repeat (destruct Hin as [<-|Hin]; [discriminate|]). contradiction.
+  - intros I. assert (Hin : In (1%N, 0%N) (rq_plist (fst (req_run fx_pinned req_init w_stash_pre)))) by (vm_compute; now left).
+    destruct (st_plist _ I _ _ Hin) as [c [m [H1 H2]]]. vm_compute in H1. inversion H1; subst. discriminate.
+Qed.
+
+Print Assumptions stash_step.
+Print Assumptions reach_stash.
+Print Assumptions req_stashed_ctx_untouched_by_pipe_loss.
+Print Assumptions req_stashed_reply_survives_pipe_loss.
+Print Assumptions req_stashed_reply_delivered_after_pipe_loss.
+Print Assumptions req_stashed_reply_recv_after_pipe_loss.
+Print Assumptions req_stashed_hypotheses_w.
+Print Assumptions req_stashed_instance_w.
+Print Assumptions req_stash_inv_refuted_pinned_w.
